@@ -6,7 +6,7 @@ sys.path.insert(0, os.path.join(os.path.dirname(os.path.abspath(__file__)), ".."
 import engine_check  # noqa: E402
 import monitors_engine as M  # noqa: E402
 
-LEAN_MODULES = ["KmipModel.Props.C16", "KmipModel.Props.C16Session", "KmipModel.Props.C02Encode", "KmipModel.Props.C01Gen"]
+LEAN_MODULES = ["KmipModel.Props.C16", "KmipModel.Props.C16Session", "KmipModel.Props.C05Listing", "KmipModel.Props.C02Encode", "KmipModel.Props.C01Gen"]
 RULE = ("complete matrices: every dispatched and several undispatched operations x every supported version "
         "(1.0,1.1,1.2,1.3,1.4,2.0) plus unsupported versions (0.9,1.5,2.1,3.0); Query and DiscoverVersions under every "
         "version, each advertised operation then sent under that version; GetAttributeList of fully attributed "
